@@ -318,10 +318,27 @@ func (g *Gen) genC05() {
 			cuts[k] += start
 		}
 		line := parseSess("msg "+capArg(hcap)+" "+capArg(ccap), buf, start, cuts, flags, false, "O")
+		// the object may have been used before: an earlier (longer or shorter) message, complete or abandoned, then Reset
+		var prev []byte
+		prevCut := 0
+		if r.P(30) {
+			pm := r.Msg(MsgOpts{LWS: r.P(50), Body: -1, CLen: -2, Reply: -1})
+			prev = []byte(pm.Text)
+			prevCut = len(prev)
+			if r.P(40) {
+				prevCut = r.N(len(prev) + 1)
+			}
+			line = fmt.Sprintf("msg %s %s | B %s | P %d 0 0 | R", capArg(hcap), capArg(ccap), hx(pm.Text), prevCut) + strings.TrimPrefix(line, "msg "+capArg(hcap)+" "+capArg(ccap))
+			kind += "-reused"
+		}
 		bb := []byte(buf)
 		g.add(Case{Prop: "C05", Desc: kind, Lines: []string{line}, Check: func(out []string) string {
 			return protect(func() string {
 				m := newMsg(hcap, ccap)
+				if prev != nil {
+					sipsp.ParseSIPMsg(prev[:prevCut], 0, m, 0)
+					m.Reset()
+				}
 				var o int
 				var err sipsp.ErrorHdr
 				off := start
